@@ -117,7 +117,7 @@ func vfSameFrame(name string, a, b *ipldbindcode.DataFrame) error {
 func vfC11eval(c *vfC11Case) error {
 	raw := c.Raw
 	type pair struct {
-		fast, ref any
+		fast, ref  any
 		ferr, rerr error
 	}
 	var p pair
